@@ -188,12 +188,23 @@ def run(tier, seed, rng):
     psrc += ("class Short(Packet):\n    tag = Data(4, default=b'ab')\n    z = Int(1)\n    w = Data(2, default=b'xyz')\n"
              "class ShortL(Packet):\n    __bisturi__ = {'generate_for_pack': False, 'generate_for_unpack': False}\n    tag = Data(4, default=b'ab')\n    z = Int(1)\n"
              "class HasShort(Packet):\n    h = Int(1)\n    s = Ref(Short)\n    t = Ref(ShortL(z=5))\n")
+    # a prototype given as an INSTANCE the user keeps: the declared default is the instance as it was when the class was declared,
+    # whatever happens to the user's object afterwards
+    psrc += ("TPL = Plain(n=9)\nBAG = HasShort(h=4)\n"
+             "class UsesTpl(Packet):\n    a = Ref(TPL)\n    g = Ref(BAG)\n    b = Int(1)\n"
+             "class UsesTpl2(Packet):\n    a = TPL\n    b = Int(1)\n"
+             "TPL.n = 33\nTPL.m = 1\nBAG.h = 77\nBAG.s.z = 6\n")
+    hcases_extra = [dict(cls='UsesTpl', op='default', value={"py": "[UsesTpl().a.n, UsesTpl().a.m, UsesTpl().g.h, UsesTpl().g.s.z, UsesTpl(b=2).a.n]"}),
+                    dict(cls='UsesTpl2', op='default', value={"py": "[UsesTpl2().a.n, UsesTpl2().a.m]"})]
+    hwant_extra = [[9, 515, 4, 0, 9], [9, 515]]
     hcases = [dict(cls='Short', op='default', value={"py": "[Short().tag, Short().w, Short(z=3).tag, Short(tag=b'ab').tag, Short(tag=b'abcd').tag]"}),
               dict(cls='ShortL', op='default', value={"py": "[ShortL().tag, ShortL(z=3).tag, ShortL().z]"}),
               dict(cls='HasShort', op='default', value={"py": "[HasShort().s.tag, HasShort().s.w, HasShort().t.tag, HasShort().t.z, HasShort(h=2).s.tag]"})]
     hwant = [[{"x": b'ab'.hex()}, {"x": b'xyz'.hex()}, {"x": b'ab'.hex()}, {"x": b'ab'.hex()}, {"x": b'abcd'.hex()}],
              [{"x": b'ab'.hex()}, {"x": b'ab'.hex()}, 0],
              [{"x": b'ab'.hex()}, {"x": b'xyz'.hex()}, {"x": b'ab'.hex()}, 5, {"x": b'ab'.hex()}]]
+    hcases += hcases_extra
+    hwant += hwant_extra
     hres = run_impl(os.path.join(VERIF, 'harness', 'impl_pkt.py'), dict(header=decl.HEADER_PY, blocks=[dict(name='protos', src=psrc)], modname='c19h', cases=hcases))
     for c, o, w in zip(hcases, hres['outcomes'], hwant):
         if o.get('ok') != w:
